@@ -118,4 +118,6 @@ TEXT["C10"]["level"] += (" A second part (flow-preempt) instruments pkg/lifecycl
 TEXT["C19"]["level"] += (" Crash part: a helper process runs the real index.SaveState, atomicfile.WriteFile and registry.SaveManifest - once replacing existing files, once writing them for the first time - "
                          "under strace fault injection (SIGKILL, EIO, ENOSPC at every file-system syscall of the write path; the helper runs single-threaded so that syscall ordinals are the same in every run); "
                          "afterwards the manifest must load through the real loader and hold exactly the previous or the new installs, every other file must be absent / previous or complete.")
+TEXT["C07"]["technique"] += " + full-stack differential run of both engines over every subset of rejected records (part engine-parity)"
+TEXT["C07"]["level"] += " Engine parity on the full stack: 1 source x 4 records, every subset rejected, windows {0/0,1/0,2/1,4/1,3/2}, default schedule: both engines must dead-letter the same records and agree on stopping (2-source pipelines are run and counted but not judged: v2's window is per source by design)."
 TEXT["C07"]["level"] += " On the full stack (single source, single destination, batch 1) the destination's outcome sequence of each run is fed to the same reference window: a tolerated rejection must reach the DLQ, a refused one may neither reach the DLQ nor be acknowledged."
